@@ -8,6 +8,29 @@ from ..mir import parent_fn
 from ..panics import label_names
 from ..tables import entry_discr_switch, first_arm, mir_enum_table
 
+TYPE_SOURCE_RE = None
+
+
+def _is_typed(ctx_or_none, text):
+    """Does the reconstructed scrutinee derive from a static-type query of the checker (infer_expr_type, or a wrapper of it
+    that takes the same expression and returns the same Option<ValueType>)?"""
+    return bool(re.search(r"\b(infer_expr_type|settled_expr_type)\b", text)) or bool(TYPE_SOURCE_RE and TYPE_SOURCE_RE.search(text))
+
+
+def _learn_type_sources(ctx):
+    """Wrappers of infer_expr_type: resolver functions (self, expr) -> Option<ValueType> whose only type source is
+    infer_expr_type on their own parameter."""
+    global TYPE_SOURCE_RE
+    names = []
+    for fid, g in ctx.lib.fns.items():
+        if g.file != "src/resolver.rs" or "{closure" in fid or g.argc != 2:
+            continue
+        if "ValueType" not in g.locals[0]["ty"] or "Option" not in g.locals[0]["ty"] or "parser::Expr" not in g.locals[2]["ty"]:
+            continue
+        names.append(re.escape(fid.split("::")[-1]))
+    TYPE_SOURCE_RE = re.compile(r"\b(%s)\b" % "|".join(names)) if names else None
+
+
 OPT = "analysis::opt::build_optimization_plan"
 JOIN = "analysis::effects::ExprClass::join"
 ORDER = {"PureNoTrap": 0, "PureMayTrap": 1, "Impure": 2}
@@ -254,6 +277,7 @@ def r1b_capture_write_is_an_effect(ctx):
 
 
 def r2_effect_tables(ctx):
+    _learn_type_sources(ctx)
     # ---- global built-ins: runtime arm facts vs effects::global_builtin_class
     g = ctx.need("analysis::effects::global_builtin_class")
     ctx.touch(g)
@@ -298,11 +322,11 @@ def r2_effect_tables(ctx):
                         if s7["kind"] == "multi" and 0 not in al7:
                             from .c02 import matches_true_set
                             names |= matches_true_set(ce_, s7)
-                        if "infer_expr_type" in d7:
+                        if _is_typed(ctx, d7):
                             typed = True
                         for mclo in re.finditer(r"\{closure#(\d+)\}", d7):
                             gclo = ctx.lib.fns.get("%s::{closure#%s}" % (ce_.id, mclo.group(1)))
-                            if gclo is not None and any((cc.callee or "").endswith("infer_expr_type") for cc in gclo.calls()):
+                            if gclo is not None and any(_is_typed(ctx, (cc.callee or "").split("::")[-1]) for cc in gclo.calls()):
                                 typed = True
                     if v in names and typed:
                         typed_join = True
@@ -367,9 +391,9 @@ def r2_effect_tables(ctx):
                 if si3["kind"] == "multi":
                     for (bi, kk, st) in si3["defs"]:
                         for S4, lab in ce.deciding(bi):
-                            if "infer_expr_type" in sh(ne(ce.deep(ce.blocks[S4]["t"]["d"]))) or "from_name" in sh(ne(ce.deep(ce.blocks[S4]["t"]["d"]))):
+                            if _is_typed(ctx, sh(ne(ce.deep(ce.blocks[S4]["t"]["d"])))) or "from_name" in sh(ne(ce.deep(ce.blocks[S4]["t"]["d"]))):
                                 multi_typed = True
-                if "infer_expr_type" in d or multi_typed:
+                if _is_typed(ctx, d) or multi_typed:
                     typed += [(S3, lab) for lab, _ in ce.succ[S3] if lab != 0]
         r = ce.reach_from_succ(mb.block, removed_nodes=strong, removed_edges=typed)
         if r & set(ce.exits()):
@@ -399,12 +423,12 @@ def r2_effect_tables(ctx):
                 continue
             d = sh(ne(ce.deep(ce.blocks[S3]["t"]["d"])))
             si3 = ce.switch_info(S3)
-            typed = "infer_expr_type" in d
+            typed = _is_typed(ctx, d)
             if si3["kind"] in ("multi", "place"):
                 l3 = si3["local"] if si3["kind"] == "multi" else si3["place"]["l"]
                 for (bi, kk, st) in ce.whole_defs(l3):
                     for S4, lab in ce.deciding(bi):
-                        if "infer_expr_type" in sh(ne(ce.deep(ce.blocks[S4]["t"]["d"]))):
+                        if _is_typed(ctx, sh(ne(ce.deep(ce.blocks[S4]["t"]["d"])))):
                             typed = True
                 if si3["kind"] == "multi":
                     from .c02 import matches_true_set
@@ -1088,13 +1112,243 @@ def r2b_no_trap_verdicts_rest_on_stable_types(ctx):
                 if is_vt and ("variable_scopes" in txt or "ValueType" in lty):
                     writers.append((parent_fn(fid), g.block_line(b)))
     writers = sorted(set(w for w, _l in writers))
-    if reads_types and writers:
-        ctx.bad("classifier-trusts-types-that-change", cls.where(), "classify_expr decides 'cannot trap' from the recorded static type of variables (it reaches lookup_var_info), and %s overwrite recorded types after the declaration: an expression classified under the old type - in a function defined earlier, or earlier in a loop body - is removed as harmless although it fails at run time once the variable holds the other type (`make x get \"abc\"  do g() start make u get x.len() end  x get 5  g()` prints on, while `shout(x.len())` in the same place ends in Type mismatch)" % ", ".join(w.split("::")[-1] for w in writers))
-    elif reads_types:
-        ctx.ok("classifier-types-stable", cls.where(), "recorded variable types are written once, at the declaration")
-    else:
+    if not reads_types:
         ctx.ok("classifier-type-free", cls.where(), "the classifier does not consult recorded variable types")
-
+        return
+    if not writers:
+        ctx.ok("classifier-types-stable", cls.where(), "recorded variable types are written once, at the declaration")
+        return
+    # Types do change.  The classifier may then use a type only behind a gate that answers, for the expression concerned,
+    # "its type rests on nothing that can change": a wrapper W(expr) that reaches the type tables only on the false outcome of
+    # a predicate P(expr).  Without such a gate on every route from the classifier to the tables, the old finding stands.
+    R = "resolver::Resolver::"
+    INFER, LOOKUP, LOOKF = R + "infer_expr_type", R + "lookup_var_info", R + "lookup_func"
+    gates = {}
+    for fid, w in sorted(ctx.lib.fns.items()):
+        if w.file != "src/resolver.rs" or "{closure" in fid or fid in (INFER, cls.id):
+            continue
+        inf = [c for c in w.calls() if c.callee in (INFER, LOOKUP)]
+        if not inf:
+            continue
+        ok_all = True
+        pred = None
+        for c in inf:
+            subj = sh(ne(w.deep(c.args[1]))) if len(c.args) > 1 else None
+            good = False
+            for S, al in w.constraints(c.block):
+                si = w.switch_info(S)
+                if si["kind"] == "call" and set(al) == {0} and (si["callee"] or "").startswith(R) and len(si["call"]["args"]) > 1 and sh(ne(w.deep(si["call"]["args"][1]))) == subj:
+                    pf = ctx.lib.fns.get(si["callee"])
+                    if pf is not None and pf.locals[0]["ty"] == "bool":
+                        good, pred = True, pf
+            ok_all = ok_all and good
+        if ok_all and pred is not None:
+            gates[fid] = pred
+    # reachability of the type tables from the classifier with the gates removed
+    seen2, st = set(), [cls.id]
+    while st:
+        x = st.pop()
+        if x in seen2 or x in gates:
+            continue
+        seen2.add(x)
+        for cal in cg.get(x, {}):
+            if cal in ctx.lib.fns:
+                st.append(cal)
+        st.extend(g.id for g in ctx.lib.closures_of(x))
+    if LOOKUP in seen2 or not gates:
+        ctx.bad("classifier-trusts-types-that-change", cls.where(), "classify_expr decides 'cannot trap' from the recorded static type of variables (it reaches lookup_var_info), and %s overwrite recorded types after the declaration: an expression classified under the old type - in a function defined earlier, or earlier in a loop body - is removed as harmless although it fails at run time once the variable holds the other type (`make x get \"abc\"  do g() start make u get x.len() end  x get 5  g()` prints on, while `shout(x.len())` in the same place ends in Type mismatch)" % ", ".join(w.split("::")[-1] for w in writers))
+        return
+    ctx.ok("classifier-gated", cls.where(), "every route from classify_expr to the recorded types passes %s" % ", ".join(sorted(g.split("::")[-1] for g in gates)))
+    from ..tables import mir_enum_table
+    from .c02 import _dispatch_arm
+    inf = ctx.need(INFER)
+    ctx.touch(inf)
+    # which functions reach the tables (variable types, function return types)
+    reach_tab = set()
+    radj = {}
+    for src, d in cg.items():
+        for cal in d:
+            radj.setdefault(cal, set()).add(src)
+    st = [LOOKUP, LOOKF]
+    while st:
+        x = st.pop()
+        if x in reach_tab:
+            continue
+        reach_tab.add(x)
+        st.extend(radj.get(x, ()))
+    for pf in {id(v): v for v in gates.values()}.values():
+        ctx.touch(pf)
+        pname = pf.id.split("::")[-1]
+        arg = 2 if pf.argc >= 2 else 1
+        tab = mir_enum_table(pf, arg) or {}
+        if not tab:
+            ctx.bad("settled|%s|no-table" % pname, pf.where(), "%s does not dispatch on the kind of its expression" % pname)
+            continue
+        table_field = None
+        for kind, res in sorted(tab.items()):
+            vals = [str(x) for x in res]
+            pa = _dispatch_arm(pf, "parser::Expr", kind)
+            ia = _dispatch_arm(inf, "parser::Expr", kind)
+            i_calls = [c for c in inf.calls() if ia and c.block in ia]
+            i_tables = [c for c in i_calls if c.callee in reach_tab and c.callee != INFER]
+            i_rec = sorted({sh(ne(inf.deep(c.args[1]))) for c in i_calls if c.callee == INFER and len(c.args) > 1})
+            p_calls = [c for c in pf.calls() if pa and c.block in pa]
+            p_rec = sorted({sh(ne(pf.deep(c.args[1]))) for c in p_calls if c.callee == pf.id and len(c.args) > 1})
+            key = "settled|%s|%s" % (pname, kind)
+            if vals == ["false"]:
+                if i_tables or i_rec:
+                    ctx.bad(key + "|called-settled", pf.where(), "%s answers `cannot change` for every %s expression, but the type of one is inferred from %s: a type that rests on a reassigned variable is trusted" % (pname, kind, sorted({(c.callee or "").split("::")[-1] for c in i_tables}) or i_rec))
+                else:
+                    ctx.ok(key, pf.where(), "type of a %s expression rests on no table" % kind)
+                continue
+            if vals == ["true"]:
+                ctx.ok(key, pf.where(), "never trusted")
+                continue
+            problems = []
+            missing = [x for x in i_rec if x not in p_rec]
+            if missing:
+                problems.append("does not look into %s, which the inferred type depends on" % ", ".join(missing))
+            if any(c.callee == LOOKUP for c in i_tables):
+                cont = [c for c in p_calls if (c.callee or "").endswith("::contains")]
+                fld = [sh(ne(pf.deep(c.args[0]))) for c in cont]
+                fld = [f for f in fld if f.startswith("self.")]
+                if fld:
+                    table_field = fld[0]
+                else:
+                    problems.append("reads a variable's recorded type without asking whether the variable is assigned again")
+            if any(c.callee == LOOKF for c in i_tables):
+                userfn = any((c.callee or "").endswith("Option::is_none") and "from_name" in sh(ne(pf.deep(c.args[0]))) for c in p_calls) or "true" in vals and any((c.callee or "").endswith("from_name") for c in p_calls)
+                if not userfn:
+                    problems.append("trusts the recorded return type of a user function (typed when the function was declared)")
+            if problems:
+                ctx.bad(key + "|" + problems[0][:28].replace(" ", "-"), pf.where(), "%s on a %s expression %s" % (pname, kind, "; ".join(problems)))
+            else:
+                ctx.ok(key, pf.where(), "asks %s" % (", ".join(p_rec) or table_field or "the built-in table"))
+        if table_field is None:
+            ctx.bad("settled|%s|no-table-of-reassigned-names" % pname, pf.where(), "%s never consults a table of reassigned variables" % pname)
+            continue
+        # the table is complete: filled by one collector that runs before anything is classified, sees every assignment and
+        # every second declaration, and descends into every block a statement can hold
+        fld = table_field.split(".", 1)[1]
+        pushers, shrinkers = [], []
+        for fid, g in sorted(ctx.lib.fns.items()):
+            if g.file != "src/resolver.rs":
+                continue
+            for c in g.calls():
+                short = (c.callee or "").split("::")[-1]
+                if not c.args or sh(ne(g.deep(c.args[0]))).replace("&mut ", "") != table_field:
+                    continue
+                if short in ("push", "extend", "insert", "extend_from_slice", "push_within_capacity"):
+                    pushers.append((g, c))
+                elif short in ("clear", "truncate", "pop", "retain", "remove", "swap_remove", "drain", "dedup"):
+                    shrinkers.append((g, c))
+        for g, c in shrinkers:
+            ctx.bad("settled|%s|shrinks|%s" % (fld, parent_fn(g.id).split("::")[-1]), g.where(c.block), "%s removes names from %s: a reassigned variable is forgotten" % (parent_fn(g.id).split("::")[-1], table_field))
+        cols = sorted({parent_fn(g.id) for g, c in pushers})
+        if len(cols) != 1:
+            ctx.bad("settled|%s|collector|%s" % (fld, ",".join(x.split("::")[-1] for x in cols) or "none"), pf.where(), "%s is filled by %s (expected exactly one collecting pass)" % (table_field, cols))
+            continue
+        col = ctx.need(cols[0])
+        ctx.touch(col)
+        cname = col.id.split("::")[-1]
+        rs = ctx.need(R + "resolve")
+        cc = [c for c in rs.calls() if c.callee == col.id]
+        cb = [c for c in rs.calls() if c.callee == R + "check_block"]
+        if cc and cb and all(rs.dominates(cc[0].block, c.block) for c in cb):
+            ctx.ok("settled|collector-runs-first", rs.where(cc[0].block), "%s runs before the first statement is checked" % cname)
+        else:
+            ctx.bad("settled|collector-runs-first", rs.where(), "%s does not run before check_block in resolve: expressions are classified against an incomplete table" % cname)
+        stmt = ctx.lib.adt("syntax::parser::Stmt")
+        for v in stmt["variants"]:
+            arm = _dispatch_arm(col, "parser::Stmt", v["name"])
+            calls_arm = [c for c in col.calls() if arm and c.block in arm]
+            for fname, fty, _vis in v["fields"]:
+                if "parser::Block" in fty:
+                    want = "@%s.%s" % (v["name"], fname)
+                    rec = [c for c in calls_arm if c.callee == col.id and any(want in sh(ne(col.deep(a))) for a in c.args[1:2])]
+                    if not rec:
+                        # an or-pattern (`FunctionDef { body, .. } | Loop { body, .. }`) shares one arm: the recursive call is
+                        # reached from this variant's edge and one of the reaching definitions of its argument is this field
+                        for S in sorted(col.live):
+                            if col.blocks[S]["t"]["k"] != "switch":
+                                continue
+                            si = col.switch_info(S)
+                            if si["kind"] == "discr" and si["ty"].endswith("parser::Stmt"):
+                                for lab, tgt in col.succ[S]:
+                                    if v["name"] in label_names(col, S, [lab], si):
+                                        reg = col.reach([tgt], removed_nodes=[S])
+                                        for c in col.calls():
+                                            if not (c.block in reg and c.callee == col.id and len(c.args) > 1):
+                                                continue
+                                            op = c.args[1]
+                                            for _ in range(4):      # through `&*binding` / `*binding` copies to the binding itself
+                                                pl = (op.get("copy") or op.get("move")) if isinstance(op, dict) else None
+                                                ds = col.whole_defs(pl["l"]) if pl is not None and not pl["p"] else []
+                                                if len(ds) == 1 and ds[0][1] != "t" and ds[0][2]["rv"]["k"] == "ref" and ds[0][2]["rv"]["of"]["p"] == ["*"]:
+                                                    op = {"copy": {"l": ds[0][2]["rv"]["of"]["l"], "p": []}}
+                                                elif len(ds) == 1 and ds[0][1] != "t" and ds[0][2]["rv"]["k"] == "use" and isinstance(ds[0][2]["rv"]["a"], dict) and ((ds[0][2]["rv"]["a"].get("copy") or ds[0][2]["rv"]["a"].get("move") or {}).get("p") == ["*"]):
+                                                    op = {"copy": {"l": (ds[0][2]["rv"]["a"].get("copy") or ds[0][2]["rv"]["a"].get("move"))["l"], "p": []}}
+                                                else:
+                                                    break
+                                            if any(want in sh(ne(a)) for a in col.alt_exprs(op, 6)):
+                                                rec.append(c)
+                                break
+                    if not rec:
+                        # the iterative form: the block is pushed onto the work list that the collector's outer loop pops and
+                        # whose popped element is the block whose statements are scanned
+                        pops = [c for c in col.calls() if (c.callee or "").endswith("Vec::pop")]
+                        feeds = any("pop(" in sh(ne(col.deep(c.args[0], 16))) and ".stmts" in sh(ne(col.deep(c.args[0], 16))) for c in col.calls() if (c.callee or "").split("::")[-1] in ("into_iter", "iter"))
+                        worklists = {sh(ne(col.deep(c.args[0]))).replace("&mut ", "") for c in pops} if feeds else set()
+                        for S in sorted(col.live):
+                            if col.blocks[S]["t"]["k"] != "switch":
+                                continue
+                            si = col.switch_info(S)
+                            if si["kind"] == "discr" and si["ty"].endswith("parser::Stmt"):
+                                for lab, tgt in col.succ[S]:
+                                    if v["name"] in label_names(col, S, [lab], si):
+                                        reg = col.reach([tgt], removed_nodes=[S])
+                                        for c in col.calls():
+                                            if not (c.block in reg and (c.callee or "").endswith("Vec::push") and len(c.args) > 1 and sh(ne(col.deep(c.args[0]))).replace("&mut ", "") in worklists):
+                                                continue
+                                            op = c.args[1]
+                                            for _ in range(4):
+                                                pl = (op.get("copy") or op.get("move")) if isinstance(op, dict) else None
+                                                ds = col.whole_defs(pl["l"]) if pl is not None and not pl["p"] else []
+                                                if len(ds) == 1 and ds[0][1] != "t" and ds[0][2]["rv"]["k"] == "ref" and ds[0][2]["rv"]["of"]["p"] == ["*"]:
+                                                    op = {"copy": {"l": ds[0][2]["rv"]["of"]["l"], "p": []}}
+                                                elif len(ds) == 1 and ds[0][1] != "t" and ds[0][2]["rv"]["k"] == "use" and isinstance(ds[0][2]["rv"]["a"], dict) and ((ds[0][2]["rv"]["a"].get("copy") or ds[0][2]["rv"]["a"].get("move") or {}).get("p") == ["*"]):
+                                                    op = {"copy": {"l": (ds[0][2]["rv"]["a"].get("copy") or ds[0][2]["rv"]["a"].get("move"))["l"], "p": []}}
+                                                else:
+                                                    break
+                                            if any(want in sh(ne(a)) for a in col.alt_exprs(op, 6)):
+                                                rec.append(c)
+                                break
+                    if rec:
+                        ctx.ok("settled|collector|descends|%s.%s" % (v["name"], fname), col.where(rec[0].block), "descends into the block (recursive call or work list)")
+                    else:
+                        ctx.bad("settled|collector|descends|%s.%s|missing" % (v["name"], fname), col.where(), "%s does not descend into %s.%s: an assignment inside it is not seen, the variable counts as never reassigned and its recorded type is trusted" % (cname, v["name"], fname))
+            if v["name"] == "AssignExisting":
+                pushes = [c for c in calls_arm if (c.callee or "").split("::")[-1] == "push" and sh(ne(col.deep(c.args[0]))).replace("&mut ", "") == table_field]
+                tgt = arm and min(arm)
+                entry = None
+                for S in sorted(col.live):
+                    if col.blocks[S]["t"]["k"] == "switch":
+                        si = col.switch_info(S)
+                        if si["kind"] == "discr" and si["ty"].endswith("parser::Stmt"):
+                            entry = [t for lab, t in col.succ[S] if label_names(col, S, [lab], si) == {"AssignExisting"}]
+                uncond = bool(pushes) and bool(entry) and all(not [sw for sw, al in col.constraints(c.block) if sw in arm] for c in pushes)
+                if uncond:
+                    ctx.ok("settled|collector|assignment-recorded", col.where(pushes[0].block), "every `x get ..` records x")
+                else:
+                    ctx.bad("settled|collector|assignment-recorded", col.where(), "%s does not record the target of every assignment unconditionally" % cname)
+            if v["name"] == "Assign":
+                pushes = [c for c in calls_arm if (c.callee or "").split("::")[-1] == "push" and sh(ne(col.deep(c.args[0]))).replace("&mut ", "") == table_field]
+                seen_test = [c for c in calls_arm if (c.callee or "").endswith("::contains")]
+                firsts = [c for c in calls_arm if (c.callee or "").split("::")[-1] == "push" and c not in pushes]
+                if pushes and seen_test and firsts and all(any(sw_al[1] != [0] for sw_al in col.constraints(c.block) if sw_al[0] in arm) for c in pushes):
+                    ctx.ok("settled|collector|redeclaration-recorded", col.where(pushes[0].block), "a second `make x` records x; the first is remembered")
+                else:
+                    ctx.bad("settled|collector|redeclaration-recorded", col.where(), "%s does not record a name that is declared a second time (a redeclaration may change the type)" % cname)
 
 RULES = [("C03-R1", r1_plan_only_from_pure), ("C03-R1b", r1b_capture_write_is_an_effect), ("C03-R2", r2_effect_tables), ("C03-R2b", r2b_no_trap_verdicts_rest_on_stable_types), ("C03-R3", r3_plan_consulted), ("C03-R3b", r3b_plan_queries_read_their_own_table), ("C03-R4", r4_dataflow_shape), ("C03-R4b", r4b_reads_and_writes_reach_the_summaries), ("C03-R4c", r4c_summaries_are_a_transitive_closure), ("C03-R4d", r4d_bitset_arithmetic_agrees), ("C03-R4e", r4e_fixpoint_flags_are_sticky), ("C03-R5", r5_loop_cfg_shape)]
 
